@@ -97,7 +97,6 @@ func init() {
 		"sort.Float64s":                   ext۰sort۰Float64s,
 		"sort.Ints":                       ext۰sort۰Ints,
 		"strconv.Atoi":                    ext۰strconv۰Atoi,
-		"strconv.Itoa":                    ext۰strconv۰Itoa,
 		"strconv.FormatFloat":             ext۰strconv۰FormatFloat,
 		"time.Sleep":                      ext۰time۰Sleep,
 		"unicode/utf8.DecodeRuneInString": ext۰unicode۰utf8۰DecodeRuneInString,
